@@ -5,6 +5,19 @@ F12 == {"f1", "f2"}
 K13 == {1, 3}
 K1 == {1}
 V5 == {5}
+\* statement families for the behaviour generators
+ActsAll == Actions
+Only(names) == {a \in Actions : a.act \in names}
+\* COMMIT that cannot encode one of several changed files (f1 gets the encoding and the text; f2, NewFile are the others)
+ActsCommitFail == {a \in Only({"setenc", "inserth"}) : a.t = "f1"}
+                  \cup {a \in Only({"insert1", "delete"}) : a.t \in {"f2", NewFile} /\ a.k = 1}
+                  \cup {a \in Only({"createas"}) : a.u = "f2" /\ a.k = 0}
+                  \cup {a \in Only({"select", "disk"}) : a.t \in {"f1", NewFile}}
+                  \cup Only({"create", "commit", "rollback"})
+\* creating tables, failing and not, and what is left in the directory
+ActsCreate == Only({"create", "createas", "insert1", "select", "commit", "rollback", "disk", "renamevu", "dropcol"})
+\* reads of every form around commits of another process
+ActsReads == Only({"select", "selectsub", "selectfn", "selectagg", "env", "update", "insertsel", "updatejoin", "commit", "rollback"})
 Depth6 == TLCGet("level") <= 6
 Depth5 == TLCGet("level") <= 5
 =============================================================================
